@@ -160,7 +160,9 @@ class Program:
                 try:
                     with warnings.catch_warnings():
                         warnings.simplefilter("ignore")
-                        tree = ast.parse(src, filename=path)
+                        with warnings.catch_warnings():
+                            warnings.simplefilter("ignore")
+                            tree = ast.parse(src, filename=path)
                 except SyntaxError as e:
                     raise AnalysisError(f"cannot parse {rel}: {e}")
                 m = ModuleInfo(modname, path, rel, src, tree)
